@@ -51,7 +51,6 @@ type vSignal struct {
 	reqUnmarshalPB   func(b []byte) (interface{}, error)
 	reqMarshalJSON   func(req interface{}) ([]byte, error)
 	reqUnmarshalJSON func(b []byte) (interface{}, error)
-	reqMigrates      bool // does ExportRequest.UnmarshalProto call otlp.MigrateX (as the code stands)?
 	newResp          func(rejected int64, msg string) vRespAPI
 	respGet          func(r vRespAPI) (int64, string)
 }
@@ -104,7 +103,6 @@ func vSignals() []*vSignal {
 			}
 			return internal.GetOrigLogs(internal.Logs(er.Logs())), nil
 		},
-		reqMigrates: true,
 		newResp: func(n int64, m string) vRespAPI {
 			r := plogotlp.NewExportResponse()
 			r.PartialSuccess().SetRejectedLogRecords(n)
@@ -162,7 +160,6 @@ func vSignals() []*vSignal {
 			}
 			return internal.GetOrigMetrics(internal.Metrics(er.Metrics())), nil
 		},
-		reqMigrates: true,
 		newResp: func(n int64, m string) vRespAPI {
 			r := pmetricotlp.NewExportResponse()
 			r.PartialSuccess().SetRejectedDataPoints(n)
@@ -220,7 +217,6 @@ func vSignals() []*vSignal {
 			}
 			return internal.GetOrigTraces(internal.Traces(er.Traces())), nil
 		},
-		reqMigrates: true,
 		newResp: func(n int64, m string) vRespAPI {
 			r := ptraceotlp.NewExportResponse()
 			r.PartialSuccess().SetRejectedSpans(n)
@@ -278,7 +274,6 @@ func vSignals() []*vSignal {
 			}
 			return er.orig, nil
 		},
-		reqMigrates: false, // MigrateProfiles is a no-op: ResourceProfiles has no deprecated field
 		newResp: func(n int64, m string) vRespAPI {
 			r := NewExportResponse()
 			r.PartialSuccess().SetRejectedProfiles(n)
